@@ -325,7 +325,7 @@ var classList = []string{
 	"default_int_bounded", "default_float_bounded",
 	"array_nullable_scalar", "map_nullable_scalar", "array_nullable_enum_ref", "map_nullable_enum_ref",
 	"ref_named_scalar", "array_named_scalar", "map_named_scalar",
-	"array_enum", "map_enum", "string_format",
+	"array_enum", "map_enum", "string_format", "nullable_collection", "nullable_union_scalars",
 }
 
 // focusOnly classes only appear when a check asks for them.
@@ -335,6 +335,8 @@ var focusOnly = map[string]bool{
 	// collections whose ELEMENTS may be null (pointers in Go)
 	"array_nullable_scalar": true, "map_nullable_scalar": true, "array_nullable_enum_ref": true, "map_nullable_enum_ref": true,
 	"ref_named_scalar": true, "array_named_scalar": true, "map_named_scalar": true,
+	// a list / map / union of scalars that may itself be null
+	"nullable_collection": true, "nullable_union_scalars": true,
 }
 
 func (g *mgen) denseStruct() T {
@@ -631,6 +633,13 @@ func (g *mgen) classType(c string, depth int) (T, bool) {
 		if g.f != CUE {
 			t.Format = rapid.SampledFrom([]string{"date", "uuid", "email", "time"}).Draw(g.t, "strformat")
 		}
+	case "nullable_collection":
+		e := T{Kind: rapid.SampledFrom([]string{KString, KInt, KFloat}).Draw(g.t, "nullcollelem")}
+		t = T{Kind: rapid.SampledFrom([]string{KArray, KMap}).Draw(g.t, "nullcollkind"), Elem: &e, Nullable: true}
+	case "nullable_union_scalars":
+		t = g.unionScalars()
+		t.TypeList = false
+		t.Nullable = true
 	case "nullable_int_plain":
 		t = T{Kind: KInt, Nullable: true}
 	case "union_structs":
